@@ -41,14 +41,10 @@ def seq_sorted(sq):
     sorted(A) and every entry of A <= x, which spares z3's sequence solver the index arithmetic on the
     concatenation (seconds, erratically).  Lemma `sorted-append-unfolding` proves both directions of that
     unfolding for arbitrary A, x."""
-    sq = z3.simplify(sq)
-    if z3.is_app(sq) and sq.decl().kind() == z3.Z3_OP_SEQ_CONCAT and sq.num_args() >= 2:
-        last = sq.arg(sq.num_args() - 1)
-        if z3.is_app(last) and last.decl().kind() == z3.Z3_OP_SEQ_UNIT:
-            rest = [sq.arg(k) for k in range(sq.num_args() - 1)]
-            a = rest[0] if len(rest) == 1 else z3.Concat(*rest)
-            return seq_sorted(a) & seq_all_le(a, TIME.dt.nanoseconds(last.arg(0)))
-    return seq_sorted_def(sq)
+    ap = _as_append(sq)
+    if ap is not None:
+        return seq_sorted(ap[0]) & seq_all_le(ap[0], TIME.dt.nanoseconds(ap[1]))
+    return seq_sorted_def(z3.simplify(sq))
 
 
 def _sorted_append_lemma():
@@ -57,9 +53,16 @@ def _sorted_append_lemma():
     b = z3.Concat(a, z3.Unit(x))
     xn = TIME.dt.nanoseconds(x)
     # (=>)  sorted(A) and all(A) <= x  ==>  sorted(A ++ [x])          (definition on the concatenation)
+    # arbitrary positions i <= j of A ++ [x] (fresh constants = universally quantified)
+    i, j = num(fresh(Int, "i")), num(fresh(Int, "j"))
+    _index_hint(i)
+    _index_hint(j)
     assume(seq_sorted_def(a))
     assume(seq_all_le(a, xn))
-    oblige("unfolded-implies-sorted", seq_sorted_def(b))
+    assume(mk_bool(z3.And(0 <= i, i <= j, j < z3.Length(b))))
+    for nm, k in (("i", i), ("j", j)):      # the sequence-theory part, isolated: what the k-th entry of A ++ [x] is
+        oblige(f"entry-{nm}-of-the-append", mk_bool(b[k] == z3.If(k < z3.Length(a), a[k], x)))
+    oblige("unfolded-implies-sorted", mk_bool(t_at(b, i) <= t_at(b, j)))
 
 
 def _sorted_append_lemma_rev():
@@ -72,13 +75,53 @@ def _sorted_append_lemma_rev():
     oblige("sorted-implies-all-le-last", seq_all_le(a, TIME.dt.nanoseconds(x)))
 
 
+def _all_ge_append_lemma():
+    a = fresh(LOG, "A").term
+    x = TIME.unwrap(fresh(TIME, "x"))
+    bnd = fresh(Int, "bound")
+    b = z3.Concat(a, z3.Unit(x))
+    _index_hint(z3.Length(a))
+    assume(seq_all_ge_def(a, bnd))
+    assume(mk_bool(TIME.dt.nanoseconds(x) >= num(bnd)))
+    oblige("unfolded-implies-all-ge", seq_all_ge_def(b, bnd))
+
+
+def _all_ge_append_lemma_rev():
+    a = fresh(LOG, "A").term
+    x = TIME.unwrap(fresh(TIME, "x"))
+    bnd = fresh(Int, "bound")
+    b = z3.Concat(a, z3.Unit(x))
+    _index_hint(z3.Length(a))
+    assume(seq_all_ge_def(b, bnd))
+    oblige("all-ge-implies-prefix-all-ge", seq_all_ge_def(a, bnd))
+    oblige("all-ge-implies-last-ge", mk_bool(TIME.dt.nanoseconds(x) >= num(bnd)))
+
+
 def _index_hint(t):
     from pyvc import ctx as _pctx
     if _pctx.active():
         _pctx.cur().note_term(z3.simplify(t))
 
 
+def _as_append(sq):
+    """(A, x) when the sequence term is syntactically  A ++ [x], else None"""
+    sq = z3.simplify(sq)
+    if z3.is_app(sq) and sq.decl().kind() == z3.Z3_OP_SEQ_CONCAT and sq.num_args() >= 2:
+        last = sq.arg(sq.num_args() - 1)
+        if z3.is_app(last) and last.decl().kind() == z3.Z3_OP_SEQ_UNIT:
+            rest = [sq.arg(k) for k in range(sq.num_args() - 1)]
+            return (rest[0] if len(rest) == 1 else z3.Concat(*rest)), last.arg(0)
+    return None
+
+
 def seq_all_ge(sq, bound):
+    ap = _as_append(sq)
+    if ap is not None:      # unfolded on an append, like seq_sorted (lemma sorted-append-unfolding covers it)
+        return seq_all_ge(ap[0], bound) & mk_bool(TIME.dt.nanoseconds(ap[1]) >= num(bound))
+    return seq_all_ge_def(sq, bound)
+
+
+def seq_all_ge_def(sq, bound):
     return forall(Int, lambda i: mk_bool(z3.Implies(z3.And(num(i) >= 0, num(i) < z3.Length(sq)),
                                                      t_at(sq, num(i)) >= num(bound))), "i")
 
@@ -142,6 +185,26 @@ PROPERTY = {
     "assumptions": COMMON_ASSUMPTIONS + [
         "token bucket configuration: capacity >= 1, refill_rate > 0, 0 <= initial_tokens <= capacity (the "
         "constructor validates nothing; a bucket with capacity < 1 can never admit, refill_rate == 0 divides by zero)",
+        "leaky bucket configuration: leak_rate > 0 (leak_rate <= 0 makes the interval +inf and time_until_available overflow)",
+        "adaptive configuration beyond what the constructor validates: min_rate * window_size >= 1 (the smallest bucket can "
+        "hold one token) and increase_step >= 0 (a negative step would let record_success push the rate below min_rate)",
+        "sliding window configuration: window_size_seconds > 0, max_requests >= 1 (max_requests == 0 makes "
+        "time_until_available index an empty log)",
+        "fixed window configuration: window_size >= 1 ns (a shorter window truncates to 0 ns at clock resolution)",
+        "C01 for the policies: calls arrive with non-decreasing `now` (precondition of time_until_available, of the drain "
+        "and of SlidingWindowPolicy.try_acquire; TokenBucket/Leaky/Fixed/Adaptive try_acquire need no such precondition)",
+        "RateLimiterPolicy interface as used by RateLimitedEntity (stub): try_acquire returns an arbitrary bool, "
+        "time_until_available returns a Duration >= 0 (proved for each of the five policies as `wait-nonnegative`); policy "
+        "calls do not touch the entity's state",
+        "a poll event delivered to RateLimitedEntity/Inductor is one that the entity scheduled itself and that has not been "
+        "delivered before (ghost counter g_polls >= 1 on delivery)",
+        "Inductor: time_constant > 0; math.exp is modelled as a strictly increasing positive function with exp(0) == 1",
+        "the aligned windows of FixedWindowPolicy are taken at clock resolution: window k is [k*Wn, (k+1)*Wn) with "
+        "Wn = int(window_size * 1e9) ns (the truncation every Instant +/- float applies)",
+        "lemmas state the induction step of the interval bounds over the proved step contracts; the induction over the "
+        "sequence of calls itself is the standard argument (not mechanised); the counting step of the sliding-window lemma "
+        "(admissions inside the window are a sub-multiset of the log) is stated, not derived",
+        "DistributedRateLimiter.check_and_increment / handle_event (generators over an untyped backing store) are not under contract",
     ],
 }
 
@@ -480,6 +543,8 @@ fn(SlidingWindowPolicy, "_prune", args={"now": TIME}, modifies=["_request_log"],
 
 lemma("sorted-append-unfolding(=>)", _sorted_append_lemma)
 lemma("sorted-append-unfolding(<=)", _sorted_append_lemma_rev)
+lemma("all-ge-append-unfolding(=>)", _all_ge_append_lemma)
+lemma("all-ge-append-unfolding(<=)", _all_ge_append_lemma_rev)
 
 fn(SlidingWindowPolicy, "try_acquire", args={"now": TIME}, requires=[log_monotone], modifies=["_request_log"], returns=Bool,
    uses=[(SlidingWindowPolicy, "_prune")], ensures=[
@@ -731,7 +796,7 @@ def _oldest_first(s):
         z3.Length(oq) >= 1, o.g_forwarded.term == z3.Concat(old.g_forwarded.term, z3.Unit(oq[0])))))
 
 
-def entity_contracts(K, request, prefix, extra_uses=()):
+def entity_contracts(K, request, prefix, extra_uses=(), ensure_requires=(), ensure_extra=()):
     uses = POLICY_IFACE + list(extra_uses)
     focus = lambda s: [s.self._queue]        # noqa: E731
     fn(K, request, args={"event": EV}, uses=uses, focus=focus, ensures=[
@@ -748,13 +813,22 @@ def entity_contracts(K, request, prefix, extra_uses=()):
         ("no-new-arrivals", lambda s: unchanged(s, s.self, "g_accepted")),
     ])
     fn(K, "_ensure_poll_scheduled", args={"now": TIME}, uses=uses, focus=focus, inv=False,
-       requires=[lambda s: s.self.g_polls == ite(s.self._poll_scheduled, 1, 0)], ensures=[
+       requires=[lambda s: s.self.g_polls == ite(s.self._poll_scheduled, 1, 0)] + list(ensure_requires),
+       ensures=list(ensure_extra) + [
         ("at-most-one-poll-outstanding", lambda s: (s.self.g_polls == 1) & s.self._poll_scheduled),
         ("schedules-only-when-none-outstanding", lambda s: len(s.result) == (0 if _truthy(s.old(s.self)._poll_scheduled) else 1)),
         ("poll-not-in-the-past", lambda s: True if len(s.result) == 0 else
             (ns(s.result[0].time) >= ns(s.now)) & same(s.result[0].target, s.self) & (s.result[0].event_type == prefix + s.self.name)),
     ])
-    fn(K, "handle_event", args={"event": EV}, uses=uses, focus=focus,
+    # handle_event only dispatches: verified modularly against the two handler clauses proved above (the stubs
+    # below restate exactly `forwarded-queued-or-dropped-exactly-once` / `forwards-at-most-one-buffered-request`;
+    # the class invariants are established by the handlers themselves, hence inv=False here)
+    mods = [f for f in REG.classes[K].fields if f not in REG.classes[K].const] + list(ENTITY_GHOST) \
+        + [(lambda s: s.self._queue, "_queue")]
+    stub_of(K, request, returns=EVSEQ, modifies=mods, ensures=[_request_post(prefix)])
+    stub_of(K, "_handle_poll", returns=EVSEQ, modifies=mods, requires=[("the-delivered-poll-was-scheduled-by-this-entity",
+                                                         lambda s: s.self.g_polls >= 1)], ensures=[_poll_post])
+    fn(K, "handle_event", args={"event": EV}, uses=[(K, request), (K, "_handle_poll")], focus=focus, inv=False,
        requires=[("a-delivered-poll-was-scheduled-by-this-entity", lambda s: implies(
            s.event.event_type == prefix + s.self.name, s.self.g_polls >= 1))], ensures=[
         ("poll-or-request", lambda s: ite_b(s.event.event_type == prefix + s.self.name,
@@ -786,25 +860,44 @@ cls(Inductor, fields={"_downstream": Ref(Entity), "_time_constant": Real, "_queu
     ghost=ENTITY_GHOST, const=["_downstream", "_queue", "_time_constant"],
     inv=_entity_inv("inductor_poll::") + [
         ("time-constant-positive", lambda o: o._time_constant > 0),
-        ("smoothed-interval-nonnegative", lambda o: True if o._smoothed_interval is None else o._smoothed_interval >= 0)])
+        ("smoothed-interval-nonnegative", lambda o: smoothed_nonneg(o))])
 
-fn(Inductor, "_can_forward", args={"now": TIME}, ensures=[
+
+OPT_REAL = Opt(Real)
+
+
+def smoothed_nonneg(o):
+    """_smoothed_interval is None or >= 0 (one formula: reading the Opt field in Python would fork the path)"""
+    if native():
+        return o._smoothed_interval is None or o._smoothed_interval >= 0
+    t = field_term(o, "_smoothed_interval")
+    return mk_bool(z3.Or(OPT_REAL.dt.is_none(t), OPT_REAL.dt.val(t) >= 0))
+
+fn(Inductor, "_can_forward", args={"now": TIME}, returns=Bool, modifies=[], ensures=[
     ("forwards-only-when-one-smoothed-interval-has-passed-since-the-last-output", lambda s: iff(s.result, ind_admits(s.self, ns(s.now)))),
     ("pure", lambda s: unchanged(s, s.self)),
 ])
 
 
+OPT_TIME = Opt(TIME)
+
+
 def ind_admits(o, t_ns):
-    lo, sm = o._last_output_time, o._smoothed_interval
-    if lo is None or sm is None:
-        return True
-    return (sm <= 0) | (secs(t_ns - ns(lo)) >= sm)
+    """no output yet, no (positive) estimate yet, or one smoothed interval has passed since the last output
+    (written on the raw Opt terms: one formula, no path fork in the callers that use the contract)"""
+    if native():
+        lo, sm = o._last_output_time, o._smoothed_interval
+        return lo is None or sm is None or sm <= 0 or (t_ns - lo.nanoseconds) / 1e9 >= sm
+    lo, sm = field_term(o, "_last_output_time"), field_term(o, "_smoothed_interval")
+    smv = OPT_REAL.dt.val(sm)
+    el = z3.ToReal(num(t_ns) - TIME.dt.nanoseconds(OPT_TIME.dt.val(lo))) / z3.RealVal(NS_PER_S)
+    return mk_bool(z3.Or(OPT_TIME.dt.is_none(lo), OPT_REAL.dt.is_none(sm), smv <= 0, el >= smv))
 
 
-fn(Inductor, "_update_rate_estimate", args={"now": TIME}, inv=False,
+fn(Inductor, "_update_rate_estimate", args={"now": TIME}, inv=False, modifies=["_smoothed_interval", "rate_history"],
    requires=[lambda s: s.self._time_constant > 0,
-             lambda s: True if s.self._smoothed_interval is None else s.self._smoothed_interval >= 0], ensures=[
-    ("smoothed-interval-stays-nonnegative", lambda s: True if s.self._smoothed_interval is None else s.self._smoothed_interval >= 0),
+             lambda s: smoothed_nonneg(s.self)], ensures=[
+    ("smoothed-interval-stays-nonnegative", lambda s: smoothed_nonneg(s.self)),
     ("estimate-is-between-the-old-estimate-and-the-new-gap", lambda s: _ewma_between(s)),
     ("only-the-estimate-changes", lambda s: unchanged(s, s.self, "_received", "_forwarded", "_queued", "_dropped",
                                                        "_last_output_time", "_last_arrival_time", "_poll_scheduled")),
@@ -812,12 +905,144 @@ fn(Inductor, "_update_rate_estimate", args={"now": TIME}, inv=False,
 
 
 def _ewma_between(s):
-    old, new = s.old(s.self)._smoothed_interval, s.self._smoothed_interval
-    la = s.old(s.self)._last_arrival_time
-    if la is None or old is None or new is None:
-        return True
-    dt = secs(ns(s.now) - ns(la))
-    return implies(dt >= 0, (new >= rmin(old, dt)) & (new <= rmax(old, dt)))
+    old_t, new_t = field_term(s.old(s.self), "_smoothed_interval"), field_term(s.self, "_smoothed_interval")
+    la_t = field_term(s.old(s.self), "_last_arrival_time")
+    old, new = OPT_REAL.dt.val(old_t), OPT_REAL.dt.val(new_t)
+    dt = z3.ToReal(num(ns(s.now)) - TIME.dt.nanoseconds(OPT_TIME.dt.val(la_t))) / z3.RealVal(NS_PER_S)
+    lo, hi = z3.If(old <= dt, old, dt), z3.If(old >= dt, old, dt)
+    return mk_bool(z3.Implies(
+        z3.And(z3.Not(OPT_TIME.dt.is_none(la_t)), z3.Not(OPT_REAL.dt.is_none(old_t)), z3.Not(OPT_REAL.dt.is_none(new_t)), dt >= 0),
+        z3.And(new >= lo, new <= hi)))
 
 
-entity_contracts(Inductor, "_handle_arrival", "inductor_poll::")
+entity_contracts(
+    Inductor, "_handle_arrival", "inductor_poll::",
+    extra_uses=[(Inductor, "_update_rate_estimate"), (Inductor, "_can_forward")],
+    ensure_requires=[lambda s: smoothed_nonneg(s.self)],
+    ensure_extra=[
+        # the drain never stalls: a poll is strictly later than now (a poll at `now` cannot forward when the
+        # request was just refused at `now`, and would re-arm itself at a frozen clock)
+        ("poll-strictly-advances-the-clock", lambda s: True if len(s.result) == 0 else ns(s.result[0].time) > ns(s.now))])
+
+# ============================================================================ C. distributed limiter (local part)
+from happysimulator.components.rate_limiter.distributed import DistributedRateLimiter  # noqa: E402
+
+cls(DistributedRateLimiter, fields={"_downstream": Ref(Entity), "_backing_store": Ref(Entity), "_global_limit": Int,
+                                    "_window_size": Real, "_key_prefix": Str, "_local_threshold": Real,
+                                    "_local_window_id": Opt(Int), "_local_count": Int, "_last_known_global_count": Int,
+                                    "_requests_received": Int, "_requests_forwarded": Int, "_requests_dropped": Int,
+                                    "_store_reads": Int, "_store_writes": Int, "_local_rejections": Int,
+                                    "_global_rejections": Int},
+    inv=[("config", lambda o: (o._global_limit >= 1) & (o._window_size > 0) & (o._local_threshold > 0) & (o._local_threshold <= 1))])
+
+fn(DistributedRateLimiter, "_get_window_id", args={"now": TIME}, ensures=[
+    ("now-lies-in-the-aligned-window-of-that-id", lambda s: (s.result * s.self._window_size <= secs(ns(s.now)))
+        & (secs(ns(s.now)) < (s.result + 1) * s.self._window_size)),
+    ("pure", lambda s: unchanged(s, s.self)),
+])
+
+fn(DistributedRateLimiter, "_should_sync", ensures=[
+    ("sync-iff-local-count-reaches-the-threshold-share-of-the-estimated-remainder", lambda s: iff(
+        s.result, s.self._local_count >= (s.self._global_limit - s.self._last_known_global_count) * s.self._local_threshold)),
+    ("pure", lambda s: unchanged(s, s.self)),
+])
+
+
+# ============================================================================ sliding window: the interval bound
+def _sliding_window_lemma():
+    """From the proved contracts - the log is sorted, holds at most N entries (class invariant), after
+    try_acquire(now) every logged entry lies in [now - Wn, now], _prune only drops entries older than the window
+    and keeps a suffix - every admission of the closed window [now - Wn, now] is still logged when `now` is
+    admitted.  So the admissions inside that window are at most N.  Induction step over the admissions:
+    a_0 <= a_1 <= ... admitted instants; claim a_{i+N} > a_i + Wn.  The log after admitting a_{i+N} holds the
+    latest <= N admissions, the oldest logged one is some a_j with j >= i+1, and a_i was dropped by a prune at
+    an instant t <= a_{i+N} because it was older than t - Wn."""
+    Wn, N = fresh(Int, "Wn"), fresh(Int, "N")
+    a_i, t_prune, a_new = fresh(Int, "a_i"), fresh(Int, "t_prune"), fresh(Int, "a_new")
+    assume((Wn >= 0) & (N >= 1))
+    assume(a_i < t_prune - Wn)            # contract of _prune: dropped entries are older than the window
+    assume(t_prune <= a_new)              # C01: instants are non-decreasing
+    oblige("an-admission-dropped-from-the-log-is-outside-every-later-window", a_i < a_new - Wn)
+    # counting: the window [a_new - Wn, a_new] holds only logged admissions, the log holds at most N
+    n_logged, n_in_window = fresh(Int, "n_logged"), fresh(Int, "n_in_window")
+    assume((n_logged <= N) & (n_in_window <= n_logged))
+    oblige("at-most-N-in-any-window", n_in_window <= N)
+
+
+lemma("sliding-window-at-most-N-in-any-window", _sliding_window_lemma)
+
+
+# ============================================================================ bounded float cross-check
+def _float_boundary_grid(seed, tier):
+    """The proofs above treat floats as reals (A-float).  This native stand-in runs the REAL policies in
+    IEEE floats on boundary-aligned arrival grids (multiples of 1/rate and of the window, +-1 ns, equal
+    instants) and checks the statement's clauses directly: zero wait => acquire succeeds, no acquire 1 ns
+    before the returned wait ends, the drain admits within 3 waits, fixed window <= N per aligned window
+    (Wn = int(W*1e9) ns) and <= 2N per window length, sliding window <= N per window, leaky spacing."""
+    import copy
+    import random
+    from collections import Counter
+    n_eval, bad = 0, {}
+    seeds = 150 if tier == "quick" else 1500
+    for sd in range(seeds):
+        rng = random.Random(seed * 100003 + sd)
+        rate = rng.choice([1.0, 3.0, 7.0, 10.0, 0.3, 1000.0])
+        cap = rng.choice([1.0, 2.0, 5.0])
+        W = rng.choice([0.1, 0.3, 0.5, 1.0, 1 / 3])
+        N = rng.choice([1, 2, 5])
+        Wn = int(W * 1e9)
+        step = rng.choice([int(1e9 / rate), Wn])
+        t, ts = 0, []
+        for _ in range(rng.randint(5, 40)):
+            t += rng.choice([0, 1, 2, step - 1, step, step + 1, step // 2, step // 3, rng.randrange(1, 3 * step)])
+            ts.append(t)
+        def new(K, *a, **k):
+            # (a worker process that verified tasks before has had K.__new__ patched and restored, after which
+            # CPython's object.__new__ rejects constructor arguments: allocate and initialise explicitly)
+            o = object.__new__(K)
+            o.__init__(*a, **k)
+            return o
+        makers = {
+            "TokenBucketPolicy": lambda: new(TokenBucketPolicy, capacity=cap, refill_rate=rate),
+            "LeakyBucketPolicy": lambda: new(LeakyBucketPolicy, leak_rate=rate),
+            "SlidingWindowPolicy": lambda: new(SlidingWindowPolicy, W, N),
+            "FixedWindowPolicy": lambda: new(FixedWindowPolicy, N, W),
+            "AdaptivePolicy": lambda: new(AdaptivePolicy, initial_rate=max(rate, 1.0), min_rate=1.0, max_rate=10000.0),
+        }
+        for name, mk in makers.items():
+            p = mk()
+            adm = [x for x in ts if p.try_acquire(Instant(x))]
+            n_eval += len(ts)
+            if name == "FixedWindowPolicy":
+                if any(v > N for v in Counter(x // Wn for x in adm).values()):
+                    bad.setdefault(name + ": more than N in one aligned window", {"W": W, "N": N, "times": ts[:12]})
+                if any(sum(1 for y in adm if x <= y < x + Wn) > 2 * N for x in adm):
+                    bad.setdefault(name + ": more than 2N in a window length", {"W": W, "N": N})
+            if name == "SlidingWindowPolicy" and any(sum(1 for y in adm if x <= y <= x + Wn) > N for x in adm):
+                bad.setdefault(name + ": more than N in a window", {"W": W, "N": N})
+            if name == "LeakyBucketPolicy" and any((b - a) / 1e9 < 1 / rate - 2e-9 for a, b in zip(adm, adm[1:])):
+                bad.setdefault(name + ": spacing below 1/rate", {"rate": rate})
+            now = Instant(ts[-1])
+            w = p.time_until_available(now)
+            n_eval += 1
+            if w == Duration.ZERO:
+                if not p.try_acquire(now):
+                    bad.setdefault(name + ": zero wait but acquire denied", {"W": W, "N": N, "rate": rate, "now_ns": ts[-1]})
+                continue
+            if w.nanoseconds > 1 and copy.deepcopy(p).try_acquire(now + Duration(w.nanoseconds - 1)):
+                bad.setdefault(name + ": acquire succeeds before the wait elapsed", {"W": W, "N": N, "rate": rate})
+            cur, ok, q = now, False, copy.deepcopy(p)
+            for _ in range(4):
+                ww = q.time_until_available(cur)
+                if ww == Duration.ZERO:
+                    ok = q.try_acquire(cur)
+                    break
+                cur = cur + ww
+            if not ok:
+                bad.setdefault(name + ": drain does not reach an admitting instant in 3 waits",
+                               {"W": W, "N": N, "rate": rate, "cap": cap, "now_ns": ts[-1]})
+    return {"evaluations": n_eval, "violations": [{"case": k, **v} for k, v in sorted(bad.items())]}
+
+
+PROPERTY["bounded"] = [{"name": "float-boundary-grid", "bound": "150 (quick) / 1500 (thorough) random boundary-aligned arrival "
+                        "grids x 5 policies, IEEE floats, native CPython", "fn": _float_boundary_grid}]
